@@ -125,6 +125,30 @@ def replay_grad(ctx, gates, obs):
                     flat += exp[c]
         if core.gt(abs(fval - want_loss), TOL) or len(grad) != len(flat) or core.gt(np.abs(np.array(grad) - np.array(flat)).max(), TOL):
             ctx.violation('C04:hf_model_wrapper:flat-gradient', 'flat (loss, gradient) handed to the optimizer differs from the exact values in sorted-parameter order', data)
+        # gradient with respect to the INPUT state (a differentiable input: a leaf tensor, or the output of another trainable module such as a
+        # chained circuit).  The loss is linear in the input state with the coefficients obs.amp, so for a generic complex input psi the
+        # forward value is Re sum_j amp[j] psi[j] and psi.grad (dL/dRe + i dL/dIm) is conj(amp)
+        amp = np.array([zo(t['val']) / SQ2 ** t['e'] for t in obs['amp']])
+        psi = np.array([complex(((j * 5) % 7) - 2.5, ((j * 3) % 5) - 1.5) for j in range(2 ** n)]) / 4
+        q_in = torch.tensor(psi, dtype=torch.complex128, requires_grad=True)
+        if holder_vals:
+            model.circuit_torch.setP(**{k: v for k, v in model.theta.items()})       # a fresh graph for the placeholder parameters
+        loss2 = torch.vdot(phi, model.circuit_torch(q_in)).real
+        ctx.evaluations += 1
+        if core.gt(abs(loss2.item() - float(np.real(np.dot(amp, psi)))), TOL):
+            ctx.violation('C04:CircuitTorchWrapper:forward-generic-input', 'forward value on a generic input state differs from the linear form of the specification', data)
+        else:
+            loss2.backward()
+            gq = None if q_in.grad is None else q_in.grad.detach().numpy()
+            if gq is None or gq.shape != amp.shape or core.gt(np.abs(gq - amp.conj()).max(), TOL):
+                lead = 0
+                for g in gates:
+                    if g['op'] in PARAM:
+                        break
+                    lead += 1
+                ctx.violation('C04:circuit-backward:input-state:%s' % ('fixed-head' if lead else 'trainable-head'),
+                              'gradient with respect to the input state differs from the exact coefficients of the loss (%d fixed gates before the first trainable gate)' % lead,
+                              dict(data, expected=[[float(z.real), float(-z.imag)] for z in amp], got=None if gq is None else [[float(z.real), float(z.imag)] for z in gq]))
     except Exception as ex:
         ctx.violation('C04:exception:circuit-gradient', type(ex).__name__ + ': ' + str(ex)[:200], data)
     ctx.case(('gradprog', tuple(word)))
